@@ -1130,3 +1130,421 @@ End ObjectWith.
 Print Assumptions group_items_spec.
 Print Assumptions object_with_spec.
 Print Assumptions object_with_outcome.
+(* ================================================================================== *)
+(** * 6. The object functions agree with the object model *)
+
+(** ** $keys *)
+Lemma keys_of_obj m : keys_of (VObj m) = map fst m.
+Proof. reflexivity. Qed.
+
+Lemma keys_of_arr l : keys_of (VArr l) = nodup_str (flat_map keys_of l).
+Proof.
+  reflexivity.
+Qed.
+
+(** each distinct member name exactly once *)
+Theorem keys_nodup v : (forall m, v = VObj m -> wf_obj m) -> NoDup (keys_of v).
+Proof.
+  intro H. destruct v; try (simpl; constructor).
+  - rewrite keys_of_arr. apply nodup_str_NoDup.
+  - rewrite keys_of_obj. apply wf_obj_NoDup. now apply H.
+Qed.
+
+Theorem keys_obj_members m s : In s (keys_of (VObj m)) <-> exists v, In (s, v) m.
+Proof.
+  rewrite keys_of_obj, in_map_iff. split.
+  - intros ([s' v] & <- & I). eauto.
+  - intros (v & I). exists (s, v). auto.
+Qed.
+
+Theorem keys_arr_members l s : In s (keys_of (VArr l)) <-> exists x, In x l /\ In s (keys_of x).
+Proof. rewrite keys_of_arr, nodup_str_In, in_flat_map. reflexivity. Qed.
+
+Theorem lib_keys_obj m : lib_keys (Some (VObj m)) = norm_results (map VStr (map fst m)).
+Proof. reflexivity. Qed.
+
+(** ** $spread *)
+Theorem spread_singletons m : spread_of (VObj m) = VArr (map (fun kv => VObj [kv]) m).
+Proof. reflexivity. Qed.
+
+(** ** $merge *)
+Definition nonnull (kv : string * value) : bool := negb (is_null (snd kv)).
+
+Lemma merge_into_fold d s :
+  merge_into d s = fold_left (fun m kv => obj_insert (fst kv) (snd kv) m) (filter nonnull s) d.
+Proof.
+  unfold merge_into. revert d. induction s as [|[k v] r IH]; intro d; simpl; [reflexivity|].
+  unfold nonnull at 1. simpl. destruct v; simpl; apply IH.
+Qed.
+
+(** later members override earlier ones (null members are skipped, as mergeMapFast does) *)
+Theorem merge_later_wins d s k :
+  assoc_get k (merge_into d s) =
+  match later_wins (filter nonnull s) k with Some v => Some v | None => assoc_get k d end.
+Proof. rewrite merge_into_fold. apply fold_insert_get. Qed.
+
+Theorem merge_into_wf d s : wf_obj d -> wf_obj (merge_into d s).
+Proof. intro W. rewrite merge_into_fold. now apply fold_insert_wf. Qed.
+
+Lemma null_free_filter m : null_free m -> filter nonnull m = m.
+Proof.
+  intro NF. apply filter_all. intros [k v] I. unfold nonnull. simpl. now rewrite (NF k v I).
+Qed.
+
+Theorem merge_into_nil_id m : wf_obj m -> null_free m -> merge_into [] m = m.
+Proof.
+  intros W NF. rewrite merge_into_fold, null_free_filter by assumption. now apply obj_of_list_wf_id.
+Qed.
+
+(** merging an array of objects: the union, later objects taking precedence *)
+Lemma lib_merge_objs ms w :
+  lib_merge (Some (VArr (map VObj ms))) w = Ok (Some (VObj (fold_left merge_into ms []))) w.
+Proof.
+  unfold lib_merge.
+  assert (E : forallb (fun x => match x with VObj _ | VFun _ => true | _ => false end) (map VObj ms) = true)
+    by (apply forallb_forall; intros x I; apply in_map_iff in I as (m & <- & _); reflexivity).
+  rewrite E. unfold ret. do 3 f_equal. clear E.
+  generalize (@nil (string * value)). induction ms as [|m r IH]; intro d; simpl; [reflexivity|]. apply IH.
+Qed.
+
+Lemma fold_merge_get ms : forall d k,
+  assoc_get k (fold_left merge_into ms d) =
+  match later_wins (filter nonnull (List.concat ms)) k with Some v => Some v | None => assoc_get k d end.
+Proof.
+  induction ms as [|m r IH]; intros d k; simpl; [reflexivity|].
+  rewrite IH, merge_later_wins. unfold later_wins. rewrite filter_app, rev_app_distr, assoc_get_app.
+  destruct (assoc_get k (rev (filter nonnull (List.concat r)))); reflexivity.
+Qed.
+
+Theorem merge_union ms w :
+  exists m, lib_merge (Some (VArr (map VObj ms))) w = Ok (Some (VObj m)) w /\ wf_obj m /\
+            forall k, assoc_get k m = later_wins (filter nonnull (List.concat ms)) k.
+Proof.
+  eexists. split; [apply lib_merge_objs|]. split.
+  - generalize wf_obj_nil. generalize (@nil (string * value)).
+    induction ms as [|m r IH]; intros d W; simpl; [assumption|]. apply IH. now apply merge_into_wf.
+  - intro k. rewrite fold_merge_get. simpl. now destruct (later_wins _ k).
+Qed.
+
+Lemma fold_merge_singletons m : forall d,
+  fold_left merge_into (map (fun kv => [kv]) m) d = merge_into d m.
+Proof.
+  induction m as [|kv r IH]; intro d; [reflexivity|].
+  cbn [map fold_left]. rewrite IH. reflexivity.
+Qed.
+
+(** $merge($spread(o)) = o *)
+Theorem merge_spread_id m w :
+  wf_obj m -> null_free m ->
+  lib_merge (lib_spread (Some (VObj m))) w = Ok (Some (VObj m)) w.
+Proof.
+  intros W NF. unfold lib_spread. rewrite spread_singletons.
+  rewrite <- (map_map (fun kv => [kv]) VObj), lib_merge_objs.
+  now rewrite fold_merge_singletons, merge_into_nil_id.
+Qed.
+
+(** ** $lookup *)
+Theorem lookup_is_field m k v :
+  assoc_get k m = Some v ->
+  lib_lookup (Some (VObj m)) k = Some v /\ eval_name_value k (Some (VObj m)) = Some v.
+Proof. intro H. unfold lib_lookup. simpl. now rewrite H. Qed.
+
+Theorem lookup_field_agree m k :
+  In k (map fst m) -> lib_lookup (Some (VObj m)) k = eval_name_value k (Some (VObj m)).
+Proof.
+  intro I. destruct (assoc_get k m) as [v|] eqn:E.
+  - destruct (lookup_is_field m k v E) as [-> ->]. reflexivity.
+  - apply assoc_get_None in E. contradiction.
+Qed.
+
+Theorem lookup_absent m k : ~ In k (map fst m) -> lib_lookup (Some (VObj m)) k = Some VNull.
+Proof. intro NI. apply assoc_get_None in NI. unfold lib_lookup. simpl. now rewrite NI. Qed.
+
+(** ** $count($keys(o)) = $count($spread(o)) *)
+Theorem count_keys_spread m :
+  lib_count (lib_keys (Some (VObj m))) = lib_count (lib_spread (Some (VObj m))) /\
+  lib_count (lib_spread (Some (VObj m))) = vnat (List.length m).
+Proof.
+  split.
+  - rewrite lib_keys_obj. unfold lib_spread. rewrite spread_singletons.
+    destruct m as [|a [|b r]]; try reflexivity.
+    cbn [map norm_results lib_count List.length]. now rewrite !map_length.
+  - unfold lib_spread. rewrite spread_singletons. cbn [lib_count]. now rewrite map_length.
+Qed.
+
+(** ** $each / $sift *)
+Lemma bind_unf {A B} (m : M A) (f : A -> M B) w :
+  bind m f w = match m w with
+               | Ok a w' => f a w' | Err e => Err e | Panic s => Panic s
+               | OutOfFuel => OutOfFuel | Need q => Need q end.
+Proof. reflexivity. Qed.
+
+Lemma mapM_post {A B C} (f : A -> M B) (g : A -> B -> C) l : forall w,
+  mapM (fun x => r <- f x ;; ret (g x r)) l w =
+  bind (mapM f l) (fun rs => ret (map (fun p => g (fst p) (snd p)) (combine l rs))) w.
+Proof.
+  set (h := fun x => r <- f x ;; ret (g x r)).
+  induction l as [|x r IH]; intro w; [reflexivity|].
+  cbn [mapM]. rewrite !bind_unf. unfold h at 1. rewrite bind_unf.
+  destruct (f x w) as [y w1|e|s| |q]; try reflexivity.
+  unfold ret at 1. rewrite !bind_unf. rewrite IH. rewrite bind_unf.
+  destruct (mapM f r w1) as [ys w2|e|s| |q]; reflexivity.
+Qed.
+
+Lemma steps_pure {A B} (f : A -> M B) g l w ys w' :
+  pure_ev f g -> steps f l w ys w' -> ys = map g l /\ w' = w.
+Proof.
+  intros P H. apply mapM_ok in H. rewrite (mapM_pure f g l w P) in H. inversion H; auto.
+Qed.
+
+Section EachSift.
+  Variable apply : callable -> list ovalue -> M ovalue.
+  Variable pcount : callable -> nat.
+
+  Definition arity_ok (fn : callable) : Prop := 1 <= pcount fn <= 3.
+
+  Lemma arity_ok_test fn : arity_ok fn -> (pcount fn <? 1) || (3 <? pcount fn) = false.
+  Proof.
+    unfold arity_ok. intro H. apply orb_false_iff. split; apply Nat.ltb_ge; lia.
+  Qed.
+
+  (** the call made for one member *)
+  Definition member_call (m : list (string * value)) (fn : callable) (kv : string * value) : M ovalue :=
+    apply fn (each_args (snd kv) (fst kv) (VObj m) (pcount fn)).
+
+  (** what $sift keeps, given the callback results *)
+  Definition sift_result (m : list (string * value)) (rs : list ovalue) : ovalue :=
+    match map fst (filter (fun p => otruthy (snd p)) (combine m rs)) with
+    | [] => None
+    | l => Some (VObj l)
+    end.
+
+  (** $each is one callback run per member, in key order (any callback, world threaded) *)
+  Theorem each_once m fn w :
+    arity_ok fn ->
+    lib_each apply pcount (Some (VObj m)) fn w =
+    bind (mapM (member_call m fn) m) (fun rs => ret (norm_results (somes rs))) w.
+  Proof. intro A. unfold lib_each. now rewrite (arity_ok_test fn A). Qed.
+
+  Theorem each_once_steps m fn w r w' :
+    arity_ok fn ->
+    (lib_each apply pcount (Some (VObj m)) fn w = Ok r w' <->
+     exists rs, steps (member_call m fn) m w rs w' /\ r = norm_results (somes rs)).
+  Proof.
+    intro A. rewrite each_once by assumption. rewrite bind_ok. split.
+    - intros (rs & w1 & Hm & Hr). apply mapM_ok in Hm. apply ret_ok in Hr as [<- <-]. eauto.
+    - intros (rs & Hs & ->). exists rs, w'. split; [now apply mapM_ok|reflexivity].
+  Qed.
+
+  Theorem sift_once m fn w :
+    arity_ok fn ->
+    lib_sift apply pcount (Some (VObj m)) fn w =
+    bind (mapM (member_call m fn) m) (fun rs => ret (sift_result m rs)) w.
+  Proof.
+    intro A. unfold lib_sift. rewrite (arity_ok_test fn A).
+    pose proof (mapM_post (member_call m fn) (fun kv r => if otruthy r then [kv] else []) m w) as E.
+    cbv beta in E. unfold member_call in *. rewrite bind_unf, E, !bind_unf. clear E.
+    destruct (mapM (fun kv => apply fn (each_args (snd kv) (fst kv) (VObj m) (pcount fn))) m w)
+      as [rs w1|e|s| |q]; try reflexivity.
+    unfold ret at 1. unfold sift_result.
+    assert (E : List.concat (map (fun p : (string * value) * ovalue =>
+                                    if otruthy (snd p) then [fst p] else []) (combine m rs)) =
+                map fst (filter (fun p => otruthy (snd p)) (combine m rs))).
+    { induction (combine m rs) as [|[kv r] l IH]; simpl; [reflexivity|].
+      destruct (otruthy r); simpl; now rewrite IH. }
+    rewrite E. destruct (map fst (filter _ (combine m rs))); reflexivity.
+  Qed.
+
+  Theorem sift_once_steps m fn w r w' :
+    arity_ok fn ->
+    (lib_sift apply pcount (Some (VObj m)) fn w = Ok r w' <->
+     exists rs, steps (member_call m fn) m w rs w' /\ r = sift_result m rs).
+  Proof.
+    intro A. rewrite sift_once by assumption. rewrite bind_ok. split.
+    - intros (rs & w1 & Hm & Hr). apply mapM_ok in Hm. apply ret_ok in Hr as [<- <-]. eauto.
+    - intros (rs & Hs & ->). exists rs, w'. split; [now apply mapM_ok|reflexivity].
+  Qed.
+
+  (** with a pure callback: the present results / the members with a truthy result *)
+  Variable cb : callable -> list ovalue -> ovalue.
+  Hypothesis Hcb : pure_apply apply cb.
+
+  Definition member_result (m : list (string * value)) (fn : callable) (kv : string * value) : ovalue :=
+    cb fn (each_args (snd kv) (fst kv) (VObj m) (pcount fn)).
+
+  Theorem each_pure m fn w :
+    arity_ok fn ->
+    lib_each apply pcount (Some (VObj m)) fn w =
+    Ok (norm_results (somes (map (member_result m fn) m))) w.
+  Proof.
+    intro A. rewrite each_once by assumption. unfold bind.
+    rewrite (mapM_pure (member_call m fn) (member_result m fn)); [reflexivity|].
+    intros kv w0. apply Hcb.
+  Qed.
+
+  Lemma combine_map_filter {A B} (g : A -> B) (t : B -> bool) (l : list A) :
+    map fst (filter (fun p => t (snd p)) (combine l (map g l))) = filter (fun x => t (g x)) l.
+  Proof.
+    induction l as [|a r IH]; simpl; [reflexivity|]. destruct (t (g a)); simpl; now rewrite IH.
+  Qed.
+
+  Theorem sift_pure m fn w :
+    arity_ok fn ->
+    lib_sift apply pcount (Some (VObj m)) fn w =
+    Ok (match filter (fun kv => otruthy (member_result m fn kv)) m with
+        | [] => None
+        | l => Some (VObj l)
+        end) w.
+  Proof.
+    intro A. rewrite sift_once by assumption. unfold bind.
+    rewrite (mapM_pure (member_call m fn) (member_result m fn)); [|intros kv w0; apply Hcb].
+    unfold ret, sift_result. now rewrite combine_map_filter.
+  Qed.
+
+  (** the sifted object is again well formed *)
+  Lemma wf_obj_filter (t : string * value -> bool) m : wf_obj m -> wf_obj (filter t m).
+  Proof.
+    induction m as [|[k v] r IH]; simpl; intro W; [assumption|].
+    apply wf_obj_cons in W as [Wr Fr]. destruct (t (k, v)); [|auto].
+    apply wf_obj_cons. split; [auto|]. apply Forall_forall. intros x I.
+    rewrite Forall_forall in Fr. apply Fr. apply in_map_iff in I as (e & <- & I).
+    apply filter_In in I as [I _]. now apply in_map.
+  Qed.
+End EachSift.
+
+Print Assumptions keys_nodup.
+Print Assumptions merge_later_wins.
+Print Assumptions merge_spread_id.
+Print Assumptions merge_union.
+Print Assumptions lookup_is_field.
+Print Assumptions count_keys_spread.
+Print Assumptions each_once_steps.
+Print Assumptions sift_once_steps.
+Print Assumptions each_pure.
+Print Assumptions sift_pure.
+(* ================================================================================== *)
+(** * 7. Examples: the hypotheses are satisfiable on non-trivial instances *)
+Module C14Examples.
+  (** a pure evaluator for field names, string literals and [$] *)
+  Definition ex_ev (k : node) (it : ovalue) : ovalue :=
+    match k with
+    | NName s _ => eval_name_value s it
+    | NString s => Some (VStr s)
+    | NVariable _ => it
+    | _ => None
+    end.
+  Definition ex_evn (k : node) (it : ovalue) : M ovalue := ret (ex_ev k it).
+
+  Lemma ex_pure : pure_evn ex_evn ex_ev.
+  Proof. intros k it w. reflexivity. Qed.
+
+  Definition n (z : Z) : value := VNum (f_of_Z z).
+  Definition row (t : string) (z : Z) : value := VObj [("n", n z); ("t", VStr t)].
+  Definition ex_rows : list value := [row "a" 1; row "b" 2; row "a" 3; row "c" 4; row "b" 5].
+  Definition ex_data : ovalue := Some (VArr ex_rows).
+  Definition w0 : world := mkWorld [].
+
+  (** rows{t: n, "all": $} *)
+  Definition ex_pairs : list (node * node) :=
+    [(NName "t" false, NName "n" false); (NString "all", NVariable "")].
+
+  Example group_pairs_example :
+    group_pairs ex_evn (ctx_items ex_data) ex_pairs 0 [] w0 =
+    Ok [("a", (0, [0; 2])); ("b", (0, [1; 4])); ("c", (0, [3])); ("all", (1, []))] w0.
+  Proof. vm_compute. reflexivity. Qed.
+
+  Example group_pairs_example_spec :
+    groups_spec ex_ev (ctx_items ex_data) ex_pairs
+                [("a", (0, [0; 2])); ("b", (0, [1; 4])); ("c", (0, [3])); ("all", (1, []))].
+  Proof. exact (proj1 (proj2 (group_pairs_spec _ _ ex_pure _ _ _ _ _ group_pairs_example))). Qed.
+
+  Example partition_example :
+    Permutation ([0; 2] ++ [1; 4] ++ [3]) (seq 0 5).
+  Proof.
+    apply (C14_partition ex_ev (ctx_items ex_data) ex_pairs _ 0 (NName "t" false) (NName "n" false)
+                         group_pairs_example_spec eq_refl eq_refl).
+    intros it I. vm_compute in I. repeat (destruct I as [<-|I]; [reflexivity|]). contradiction.
+  Qed.
+
+  Example object_with_example :
+    object_with ex_evn ex_pairs ex_data w0 =
+    Ok (Some (VObj [("a", VArr [n 1; n 3]); ("all", VArr ex_rows); ("b", VArr [n 2; n 5]); ("c", n 4)])) w0.
+  Proof. vm_compute. reflexivity. Qed.
+
+  (** a member whose value is absent is omitted: rows{t: missing} has no members *)
+  Example object_with_absent :
+    object_with ex_evn [(NName "t" false, NName "missing" false)] ex_data w0 = Ok (Some (VObj [])) w0.
+  Proof. vm_compute. reflexivity. Qed.
+
+  (** a non-string key *)
+  Example illegal_key_example :
+    object_with ex_evn [(NName "n" false, NName "t" false)] ex_data w0 = Err (EEval ErrIllegalKey) /\
+    illegal_key ex_ev (ctx_items ex_data) [(NName "n" false, NName "t" false)].
+  Proof.
+    split; [vm_compute; reflexivity|].
+    exists (NName "n" false), (NName "t" false), (Some (row "a" 1)).
+    split; [now left|]. split; [reflexivity|]. split; [now left|]. reflexivity.
+  Qed.
+
+  (** the same key string from two different pairs *)
+  Example duplicate_key_example :
+    object_with ex_evn [(NName "t" false, NName "n" false); (NString "b", NVariable "")] ex_data w0
+    = Err (EEval ErrDuplicateKey) /\
+    duplicate_key ex_ev (ctx_items ex_data) [(NName "t" false, NName "n" false); (NString "b", NVariable "")].
+  Proof.
+    split; [vm_compute; reflexivity|].
+    exists 0, 1, (NName "t" false), (NName "n" false), (NString "b"), (NVariable ""), "b".
+    split; [discriminate|]. split; [reflexivity|]. split; [reflexivity|].
+    split; [vm_compute; tauto|now left].
+  Qed.
+
+  (** object functions *)
+  Definition ex_obj : list (string * value) := [("a", n 1); ("b", VStr "x"); ("c", VArr [n 2; VNull])].
+
+  Example ex_obj_wf : wf_obj ex_obj /\ null_free ex_obj.
+  Proof.
+    split.
+    - unfold wf_obj, ex_obj, slt. simpl. repeat constructor.
+    - intros k v I. vm_compute in I.
+      repeat (destruct I as [I|I]; [inversion I; reflexivity|]). contradiction.
+  Qed.
+
+  Example merge_spread_example :
+    lib_merge (lib_spread (Some (VObj ex_obj))) w0 = Ok (Some (VObj ex_obj)) w0.
+  Proof. vm_compute. reflexivity. Qed.
+
+  Example merge_later_example :
+    lib_merge (Some (VArr [VObj [("a", n 1); ("b", n 2)]; VObj [("b", n 3); ("c", VNull)]])) w0 =
+    Ok (Some (VObj [("a", n 1); ("b", n 3)])) w0.
+  Proof. vm_compute. reflexivity. Qed.
+
+  Example keys_example :
+    lib_keys (Some (VArr [VObj ex_obj; VObj [("b", n 0); ("z", n 0)]])) =
+    Some (VArr [VStr "a"; VStr "b"; VStr "c"; VStr "z"]).
+  Proof. vm_compute. reflexivity. Qed.
+
+  Example lookup_example :
+    lib_lookup (Some (VObj ex_obj)) "b" = Some (VStr "x") /\
+    eval_name_value "b" (Some (VObj ex_obj)) = Some (VStr "x").
+  Proof. apply lookup_is_field. reflexivity. Qed.
+
+  (** a pure callback: function(v, k) returning v when it is truthy, nothing otherwise *)
+  Definition ex_cb (c : callable) (args : list ovalue) : ovalue :=
+    match args with Some v :: _ => if truthy v then Some v else None | _ => None end.
+  Definition ex_apply (c : callable) (args : list ovalue) : M ovalue := ret (ex_cb c args).
+  Definition ex_pcount (c : callable) : nat := 2.
+
+  Lemma ex_apply_pure : pure_apply ex_apply ex_cb.
+  Proof. intros c a w. reflexivity. Qed.
+
+  Definition ex_obj2 : list (string * value) := [("a", n 1); ("b", n 0); ("c", VStr "x")].
+
+  Example each_example :
+    lib_each ex_apply ex_pcount (Some (VObj ex_obj2)) (CUndef "f") w0 = Ok (Some (VArr [n 1; VStr "x"])) w0.
+  Proof. rewrite (each_pure _ _ _ ex_apply_pure); [reflexivity|]. unfold arity_ok, ex_pcount. lia. Qed.
+
+  Example sift_example :
+    lib_sift ex_apply ex_pcount (Some (VObj ex_obj2)) (CUndef "f") w0 =
+    Ok (Some (VObj [("a", n 1); ("c", VStr "x")])) w0.
+  Proof. rewrite (sift_pure _ _ _ ex_apply_pure); [reflexivity|]. unfold arity_ok, ex_pcount. lia. Qed.
+End C14Examples.
